@@ -251,7 +251,7 @@ func Explore(p *Program, fn *ssa.Function, eo *ExploreOpts) *Result {
 					nviol += n
 				}
 				// enough counterexample paths: exploring thousands more of a broken tree adds nothing
-				tooMany := (eo.MaxPaths > 0 && res.Paths >= eo.MaxPaths) || nviol >= 300
+				tooMany := (eo.MaxPaths > 0 && res.Paths >= eo.MaxPaths) || (nviol >= 300 && os.Getenv("SYMGO_NOSTOP") == "")
 				rmu.Unlock()
 				st.done()
 				npaths++
